@@ -162,7 +162,10 @@ func (p *Path) runInitBody(fn *ssa.Function) {
 	if p.cur != nil {
 		caller = p.cur.fr
 	}
+	saved := p.forceInit
+	p.forceInit = fn
 	p.callSSA(caller, fn, nil, nil)
+	p.forceInit = saved
 }
 
 func constantBool(c *ssa.Const) bool {
@@ -254,7 +257,7 @@ func (p *Path) callSSA(caller *frame, fn *ssa.Function, args []value, env []valu
 			return p.call(caller, r, args)
 		}
 	}
-	if p.initingShallow && fn.Name() == "init" && fn.Pkg != nil && fn.Signature.Recv() == nil && len(args) == 0 && caller != nil && caller.fn.Name() == "init" && caller.fn.Pkg != fn.Pkg {
+	if p.initingShallow && fn != p.forceInit && fn.Name() == "init" && fn.Pkg != nil && fn.Signature.Recv() == nil && len(args) == 0 && caller != nil && caller.fn.Name() == "init" && caller.fn.Pkg != fn.Pkg {
 		// nested package initializer: handled lazily
 		return nil
 	}
